@@ -247,6 +247,51 @@ func parseFaults(s string) faultSet {
 	return fs
 }
 
+
+// probeNullThenObject: two entity fetches anchored at the same object both select the object field
+// `p`; the first answers p:null (with an error), the second an object.  MergeValues(null, object)
+// is ErrMergeDifferentTypes, so the outcome depends on the merge order.
+func probeNullThenObject(lab *loaderlab.Lab, firstNull bool) {
+	s := &loaderlab.Schema{NSub: 3}
+	bT := &loaderlab.TypeDef{Name: "B", Fields: []*loaderlab.FieldDef{{Name: "x", Scalar: plan.KStr, Owner: 1}, {Name: "y", Scalar: plan.KStr, Owner: 2}}}
+	pF := &loaderlab.FieldDef{Name: "p", Target: "B", Nullable: true, Owner: 1}
+	aT := &loaderlab.TypeDef{Name: "A", Fields: []*loaderlab.FieldDef{pF}}
+	aF := &loaderlab.FieldDef{Name: "a", Target: "A", Nullable: true, Owner: 0}
+	qT := &loaderlab.TypeDef{Name: "Query", Fields: []*loaderlab.FieldDef{aF}}
+	s.Types = []*loaderlab.TypeDef{aT, bT}
+	s.Query = qT
+	s.Index()
+	u := &loaderlab.Universe{Schema: s, Ents: map[string]*loaderlab.Ent{}, ErrOn: map[string]bool{}}
+	u.Ents["B/1"] = &loaderlab.Ent{Type: "B", ID: "1", Vals: map[string]any{"x": `"ex"`, "y": `"why"`}}
+	u.Ents["A/1"] = &loaderlab.Ent{Type: "A", ID: "1", Vals: map[string]any{"p": &loaderlab.Ref{Type: "B", ID: "1"}}}
+	u.Root = &loaderlab.Ent{Type: "Query", Vals: map[string]any{"a": &loaderlab.Ref{Type: "A", ID: "1"}}}
+	nullSub, objSub := 1, 2
+	u.ErrOn["A/1/"+strconv.Itoa(nullSub)] = true // subgraph 1 answers p:null + an error for A/1
+	f0 := &loaderlab.Fetch{ID: 0, Kind: loaderlab.FSingle, Sub: 0, Type: "Query", Sel: &loaderlab.Sel{Type: "Query"}}
+	f0.Sel.Field(aF).Sub.Key = true
+	mk := func(id, sub int, leaf *loaderlab.FieldDef) *loaderlab.Fetch {
+		f := &loaderlab.Fetch{ID: id, Kind: loaderlab.FEntity, Sub: sub, Type: "A", Deps: []int{0}, Path: []loaderlab.PathElem{{Name: "a"}}, Sel: &loaderlab.Sel{Type: "A"}}
+		f.Sel.Field(pF).Sub.Field(leaf)
+		return f
+	}
+	f1, f2 := mk(1, nullSub, bT.Fields[0]), mk(2, objSub, bT.Fields[1])
+	order := []*loaderlab.Fetch{f1, f2}
+	if !firstNull {
+		order = []*loaderlab.Fetch{f2, f1}
+	}
+	root := &plan.Node{Kind: plan.KObj, TypeName: "Query", Fields: []*plan.Field{{Name: "a", Value: &plan.Node{Kind: plan.KObj, Path: []string{"a"}, Nullable: true, TypeName: "A",
+		Fields: []*plan.Field{{Name: "p", Value: &plan.Node{Kind: plan.KObj, Path: []string{"p"}, Nullable: true, TypeName: "B",
+			Fields: []*plan.Field{{Name: "x", Value: &plan.Node{Kind: plan.KStr, Path: []string{"x"}, Nullable: true}}, {Name: "y", Value: &plan.Node{Kind: plan.KStr, Path: []string{"y"}, Nullable: true}}}}}}}}}}
+	p := &loaderlab.Plan{U: u, Root: root, Fetches: []*loaderlab.Fetch{f0, f1, f2}, Prov: map[*plan.Field]int{}}
+	p.Tree = &loaderlab.TNode{Kind: "seq", Kids: []*loaderlab.TNode{{Kind: "single", Fetch: f0}, {Kind: "single", Fetch: order[0]}, {Kind: "single", Fetch: order[1]}}}
+	p.Finalize(false)
+	res := p.Run(lab, loaderlab.RunConfig{})
+	fmt.Printf("order=%v\n  out=%s\n  err=%v\n", []int{order[0].ID, order[1].ID}, res.Out, res.Err)
+	for _, rq := range res.Requests {
+		fmt.Printf("  f%d body=%s\n", rq.FetchID, rq.Body)
+	}
+}
+
 func main() {
 	if len(os.Args) < 2 {
 		fmt.Fprintln(os.Stderr, "usage: c07 gen -seed S -n N -tier quick|thorough -mode mixed|strict -out F | c07 corpus -in F -out F | c07 show -seed S -idx I [-faults 1:transport,..]")
@@ -300,6 +345,9 @@ func main() {
 			cl, _ := planLine(lab, p, r, []faultSet{parseFaults(parts[3])}, s, idx, o)
 			out.Line(cl)
 		}
+	case "probe-null-object":
+		probeNullThenObject(lab, true)
+		probeNullThenObject(lab, false)
 	case "show":
 		idx := common.ArgInt(a, "idx", 0)
 		p, _, _ := makePlan(seed, idx, mode)
